@@ -17,7 +17,7 @@ try:
         r = json.loads(l); done[r['i']] = r
     assert len(done) == len(plans), (len(done), len(plans))
     pat = sys.argv[3] if len(sys.argv) > 3 else None
-    todo = [i for i, r in sorted(done.items()) if r['key'] and ((pat in r['key']) if pat else not r['key'].startswith('abort:assert:'))]
+    todo = [i for i, r in sorted(done.items()) if r['key'] and (any(p in r['key'] for p in pat.split('|')) if pat else not r['key'].startswith('abort:assert:'))]
     print('re-keying', len(todo), 'of', len(plans), 'points', flush=True)
     res = C.pmap(lambda i: chk.execute(ctx, items[plans[i]['item']], plans[i]['params']), todo, 2)
     changed = 0
